@@ -349,6 +349,38 @@ def main():
         os.stat = real_stat
     s.check(problems)
 
+    # S13: the same re-use after a PLAIN removal (its own event, own batch), for a file and for a directory, also with a write
+    # in between: the new item's creation is real and must be reported - replay must reproduce the tree
+    for kind, wrote in (("file", False), ("file", True), ("dir", False)):
+        s = Scenario(f"S13 create, {'write, ' if wrote else ''}remove (own event), new {kind} with the re-used inode number")
+        s.start()
+        fl = F_IS_FILE if kind == "file" else F_IS_DIR
+        pf, pg = os.path.join(s.root, "f"), os.path.join(s.root, "g")
+        (touch(pf) if kind == "file" else os.mkdir(pf))
+        i = ino(pf)
+        s.deliver([s.ev("f", i, F_CREATED | fl)])
+        if wrote:
+            touch(pf, b"more")
+            s.deliver([s.ev("f", i, F_MODIFIED | fl)])
+        (os.unlink(pf) if kind == "file" else os.rmdir(pf))
+        s.deliver([s.ev("f", i, F_REMOVED | fl)])
+        (touch(pg) if kind == "file" else os.mkdir(pg))
+        real_stat = os.stat
+
+        def fake_stat13(path, *a, _pg=pg, _i=i, **k):
+            st = real_stat(path, *a, **k)
+            return _St(st, _i) if os.fspath(path) == _pg else st
+        os.stat = fake_stat13
+        try:
+            s.deliver([s.ev("g", i, F_CREATED | fl)])
+            if kind == "file":
+                os.stat = real_stat
+                os.rename(pg, os.path.join(s.root, "h"))
+                s.deliver([s.ev("g", i, F_RENAMED | fl), s.ev("h", i, F_RENAMED | fl)])
+        finally:
+            os.stat = real_stat
+        s.check(problems)
+
     # S12: two renames whose halves interleave in one batch (per-item coalescing moves the destination of the first behind
     # the second rename): each is one moved event with both paths
     for order in ("dest-last", "src-first"):
